@@ -22,6 +22,11 @@ Readings fixed by the oracle (each follows the statement / the documented API, s
     not be recomputed (it depends on the element through the ItemSpace's reference, not through a call);
   - a reference change must keep every assigned value and must not leave any computed value that (transitively)
     read the reference; what else it discards is not constrained here (C02).
+Held values may be None: the `none` nets switch allow_none on (for the cells, their spaces or the model), contain
+elements whose formula returns None (kind N: None while the reference x is even) and add the edit "assign None";
+every formula reads its callees through the reference NZ (None counts as -1).  The same oracle applies: an assigned
+None persists, reports is_input and is what the cells returns; a held None is served without its formula running;
+the values computed from it are those of the definitions.
 Models are reused between cases (reset by a checked Model.clear_all()); a failure seen on a reused model is
 re-run on a fresh one, if necessary together with the preceding cases, before it is reported.
 """
@@ -34,14 +39,19 @@ WEIGHT = (3, 5, 7, 11, 13)
 
 # ------------------------------------------------------------------------------------------------ nets
 class Net:
-    """preds[i] = tuple of j < i;  kinds[i] in C (cached cells) U (uncached cells) I (ItemSpace node);
+    """preds[i] = tuple of j < i;  kinds[i] in C (cached cells) U (uncached cells) I (ItemSpace node) N (cached cells
+    whose formula returns None while x is even; nets with allow_none only);
     layout: one (scalar cells in S) / two (even nodes in S, odd in T, calls by attribute path) / args (one cells
     f(i)) / args2 (one cells f(i, j), positional and keyword arguments)."""
 
-    def __init__(self, preds, kinds, layout):
+    def __init__(self, preds, kinds, layout, none=None):
         self.preds, self.kinds, self.layout = tuple(map(tuple, preds)), tuple(kinds), layout
+        self.none = none            # None | 'cells' | 'space' | 'model': where allow_none is switched on
+        assert none or "N" not in kinds
         self.n = len(preds)
         self.key = "%s/%s/%s" % (layout, "".join(kinds), ";".join(",".join(map(str, p)) for p in preds))
+        if none:
+            self.key += "/none:" + none
 
     def sp(self, i):
         if self.layout == "two" and i % 2:
@@ -60,6 +70,8 @@ class Net:
         return "_model.%s.c%d()" % (self.sp(j), j)
 
     def build_lines(self):
+        if self.none:
+            return self.build_lines_none()
         L = ["m.LOG = []", "S = m.new_space('S')", "S.x = 0"]
         if self.layout == "two":
             L += ["T = m.new_space('T')", "T.x = 0"]
@@ -87,6 +99,38 @@ class Net:
                     sp, i, src, ", is_cached=False" if self.kinds[i] == "U" else ""))
         return L
 
+    def build_lines_none(self):
+        """The same net with None-tolerant formulas (callees read through NZ) and allow_none switched on."""
+        assert self.layout in ("one", "two", "args") and "I" not in self.kinds
+        L = ["m.LOG = []", "m.NZ = lambda u: -1 if u is None else u", "S = m.new_space('S')", "S.x = 0"]
+        if self.layout == "two":
+            L += ["T = m.new_space('T')", "T.x = 0"]
+        if self.layout == "args":
+            L.append("S.K = %r" % (tuple(self.K(i) for i in range(self.n)),))
+            L.append("S.PW = %r" % (tuple(tuple((j, WEIGHT[j]) for j in self.preds[i]) for i in range(self.n)),))
+            L.append("S.NN = %r" % (tuple(i for i in range(self.n) if self.kinds[i] == "N"),))
+            L.append("S.new_cells('f', formula=%r)" % (
+                "def f(i):\n    LOG.append(i)\n    v = K[i] + x + sum([w * NZ(f(j)) for j, w in PW[i]])\n"
+                "    return None if (i in NN and x % 2 == 0) else v"))
+            cells = ["m.S.f"]
+        else:
+            cells = []
+            for i in range(self.n):
+                sp = self.sp(i)
+                terms = "".join(" + %d * NZ(%s)" % (WEIGHT[j], self.pred_expr(j, sp)) for j in self.preds[i])
+                src = "def c%d():\n    LOG.append(%d)\n    v = %d + x%s\n    return %s" % (
+                    i, i, self.K(i), terms, "None if x % 2 == 0 else v" if self.kinds[i] == "N" else "v")
+                L.append("%s.new_cells('c%d', formula=%r%s)" % (
+                    sp, i, src, ", is_cached=False" if self.kinds[i] == "U" else ""))
+                cells.append("m.%s.c%d" % (sp, i))
+        if self.none == "cells":
+            L += ["%s.allow_none = True" % c for c in cells]
+        elif self.none == "space":
+            L += ["S.allow_none = True"] + (["T.allow_none = True"] if self.layout == "two" else [])
+        else:
+            L.append("m.allow_none = True")
+        return L
+
     def eval_expr(self, i):
         if self.layout == "args":
             return "m.S.f(%d)" % i
@@ -105,7 +149,7 @@ class Net:
         k = self.kinds[i] if i is not None else None
         c = None if (a or i is None) else "m.%s.c%d" % (self.sp(i), i)
         if op == "A":
-            return "m.S.f[%d] = %d" % (i, v) if a else ("%s.value = %d" % (c, v) if i % 2 == 0 else "%s = %d" % (c, v))
+            return "m.S.f[%d] = %r" % (i, v) if a else ("%s.value = %r" % (c, v) if i % 2 == 0 else "%s = %r" % (c, v))
         if op == "C":
             if a:
                 return "m.S.f.clear_at(%d)" % i
@@ -128,12 +172,17 @@ class Net:
             out += [("CL", None), ("CA", None)]
         else:
             for i in range(self.n):
-                if self.kinds[i] == "C":
+                if self.kinds[i] in "CN":
                     out += [("A", i), ("C", i), ("CL", i), ("CA", i)]
                 elif self.kinds[i] == "I":
                     out += [("C", i), ("CL", i), ("CA", i)]
+        if self.none:               # the edit "assign None" (op AN = A with the value None)
+            out += [("AN", i) for i in range(self.n) if self.kinds[i] in "CN"]
         out.append(("X", None))
         return out
+
+
+NONE_WHERE = ("cells", "space", "model")
 
 
 def all_dags(n):
@@ -159,6 +208,26 @@ def nets_of(n, variants):
         if "UU" in variants and n >= 3:
             for pos in range(n - 1):
                 yield Net(preds, "C" * pos + "UU" + "C" * (n - pos - 2), "one")
+    # held value None: allow_none on the cells / the space / the model ("none": all three per net, "none1": one of
+    # them, cycling); all-C nets (None only by assignment), one N element at every position, N next to an uncached U
+    count = 0
+    for v in variants:
+        if not v.startswith("none"):
+            continue
+        for preds in all_dags(n):
+            kindsets = ["C" * n] + ["C" * pos + "N" + "C" * (n - pos - 1) for pos in range(n)]
+            if n >= 2:
+                kindsets += ["NU" + "C" * (n - 2), "UN" + "C" * (n - 2)]
+            for lay in ("one", "two", "args"):
+                if lay == "two" and n < 2:
+                    continue
+                for kinds in kindsets:
+                    if "U" in kinds and lay != "one":
+                        continue
+                    for w, where in enumerate(NONE_WHERE):
+                        if v == "none" or (v == "none1" and (count + w) % 3 == 0) or v == "none:" + where:
+                            yield Net(preds, kinds, lay, none=where)
+                    count += 1
 
 
 # ------------------------------------------------------------------------------------------------ observation
@@ -181,14 +250,18 @@ class Sim:
     # elements: ('c', i) cells element, ('I', i) ItemSpace node P_i[0], ('V', i) the value P_i[0].v()
     def formula(self, i, d, with_x=True):
         net = self.net
-        v = net.K(i) + (self.x[net.sp(i)] if with_x else 0)
+        x = self.x[net.sp(i)]
+        v = net.K(i) + (x if with_x else 0)
         for j in net.preds[i]:
-            v += WEIGHT[j] * self.ev(j, d)
+            p = self.ev(j, d)
+            v += WEIGHT[j] * (-1 if p is None else p)       # nets without allow_none never hold None
+        if net.kinds[i] == "N" and x % 2 == 0:
+            return None
         return v
 
     def ev(self, i, d):
         kind = self.net.kinds[i]
-        if kind == "C":
+        if kind in "CN":
             e = ("c", i)
             d.add(e)
             if e not in self.val:
@@ -357,7 +430,7 @@ class Bench:
 
 def op_kind(sim, op, i):
     net = sim.net
-    if op == "A":
+    if op in ("A", "AN"):
         e = ("c", i)
         return "assign-new" if e not in sim.val else ("overwrite-input" if e in sim.inp else "overwrite-computed")
     if op == "C":
@@ -392,6 +465,17 @@ def run_case(bench, case):
     base = ["recalc-on" if recalc else "recalc-off", "layout:" + net.layout]
     if "U" in net.kinds:
         base.append("net-has-uncached")
+    if net.none:
+        base.append("allow-none:" + net.none)
+
+    def none_tags():
+        """Features of the state a step is checked in: an assigned / a computed element holds None."""
+        t = []
+        if any(v is None and e in sim.inp for e, v in sim.val.items()):
+            t.append("holds-assigned-none")
+        if any(v is None and e not in sim.inp for e, v in sim.val.items()):
+            t.append("holds-computed-none")
+        return t
     sim = Sim(net)
     nontrivial = False
 
@@ -411,7 +495,7 @@ def run_case(bench, case):
             want = sim.evaluate(t)
             rec = {"k": "eval", "ln": net.eval_expr(t), "mode": "exact", "value": want, "state": sim.expected(),
                    "log": sim.log[s0:]}
-            if not run(rec, tags):
+            if not run(rec, tags + none_tags()):
                 return False
         return True
 
@@ -427,7 +511,11 @@ def run_case(bench, case):
         kind = op_kind(sim, op, i)
         last = kind
         v = None
-        if op == "A":
+        if op == "AN":
+            op = "A"                # assign None
+            kind += "-none"
+            last = kind
+        elif op == "A":
             v = 50000 + 100 * len(recs) + i
         elif op == "X":
             xcount += 1
@@ -459,7 +547,7 @@ def run_case(bench, case):
                                    if ("I", e[1]) in sim.val]
             rec["state"] = sim.expected()
             rec["log"] = sim.log[s0:]
-        tags = base + ["op:" + kind] + struct_tags(D)
+        tags = base + ["op:" + kind] + struct_tags(D) + none_tags()
         if D or had_inputs or op == "A":
             nontrivial = True
         if not run(rec, tags):
@@ -559,6 +647,12 @@ def plan(tier):
             (4, ("one",), 1, (None,), (1,), None),
             (4, ("one", "two", "args", "U", "I", "UU"), 2, (None, "all"), (1, 1), 8),
             (5, ("one", "I", "U"), 2, (None, "all"), (1, 1), 2),
+            # held value None (allow_none; kinds N; the edit "assign None")
+            (1, ("none:cells",), 3, (None, "all"), (2, 2, 2), None),
+            (1, ("none",), 2, (None, "all"), (2, 2), None),
+            (2, ("none1",), 2, (None, "all"), (2, 2), None),
+            (3, ("none1",), 1, (None,), (1,), None),
+            (3, ("none1",), 3, (None, "all"), (1, 1, 1), 30),
         ]
     return [
         (1, ("one", "args", "I"), 3, (None, "all"), (2, 2, 2), None),
@@ -571,6 +665,13 @@ def plan(tier):
         (4, ("one", "two", "args", "args2", "U", "I", "UU"), 3, (None, "all"), (1, 1, 1), 100),
         (5, ("one",), 1, (None,), (1,), None),
         (5, ("one", "two", "args", "U", "I", "UU"), 3, (None, "all"), (1, 1, 1), 25),
+        # held value None (allow_none; kinds N; the edit "assign None")
+        (1, ("none",), 3, (None, "all"), (2, 2, 2), None),
+        (2, ("none",), 2, (None, "all"), (2, 2), None),
+        (2, ("none1",), 3, (None,), (2, 2, 1), None),
+        (3, ("none1",), 2, (None,), (2, 0), None),
+        (3, ("none",), 3, (None, "all"), (1, 1, 1), 60),
+        (4, ("none1",), 3, (None, "all"), (1, 1, 1), 6),
     ]
 
 
@@ -582,8 +683,8 @@ def work(task):
     fails = {}
     expired = False
     build_errors = []
-    for preds, kinds, layout in nets:
-        net = Net(preds, kinds, layout)
+    for preds, kinds, layout, none in nets:
+        net = Net(preds, kinds, layout, none)
         rng = random.Random("%s/%s/%s" % (seed, net.key, maxlen))
         try:
             bench = Bench(net)
@@ -651,7 +752,10 @@ def run(res, tier, seed):
                  "<= 3 sampled); realisations: scalar cells in one space / in two spaces (calls by attribute path) / "
                  "elements of one cells with one or two arguments / one or two uncached cells / one ItemSpace node; every edited "
                  "element x {assign, clear_at, clear(), clear_all(), delete ItemSpace, reference change} x recalc on/off "
-                 "x initial evaluation {all, one target, none}")
+                 "x initial evaluation {all, one target, none}; + the DAGs on <= 3 elements (4 sampled, thorough) with "
+                 "allow_none on the cells / the space / the model, <= 1 element computing None (alone or next to an uncached "
+                 "cells) and the additional edit 'assign None' (quick: sequences <= 3 on 1 element, <= 2 on 2, 1 on 3, "
+                 "3 sampled; thorough: <= 3 on 1-2 elements, <= 2 on 3, 3 sampled)")
     res.rule = ("a case = (DAG realisation, recalc flag, initial evaluation, sequence of edits with optional full "
                 "evaluation in between, final full evaluation); after every step dict(cells), is_input, the existing "
                 "ItemSpaces and the formula execution log are compared with an independent memoising evaluator; "
@@ -661,7 +765,7 @@ def run(res, tier, seed):
     tasks = []
     for row in plan(tier):
         n, variants = row[0], row[1]
-        nets = [(nt.preds, nt.kinds, nt.layout) for nt in nets_of(n, variants)]
+        nets = [(nt.preds, nt.kinds, nt.layout, nt.none) for nt in nets_of(n, variants)]
         if row[5] is not None and n == 5:           # sampled rows on 5 elements: a seeded subset of the nets
             r = random.Random("%s/nets5/%s" % (seed, row[2]))
             r.shuffle(nets)
